@@ -45,7 +45,8 @@ META = dict(
                  "after a conflict the SAT solver retracts at least the newest literal of the explanation before asserting again"],
     needs_impl=True,
     rule="per theory (LRA, LIA, IDL, RDL, UF, AX) pools of 6..12 literals over 3..4 variables / 4 constants + 2 functions + 1 predicate / 2 arrays; "
-         "histories of 25..60 operations: declare (most up front, some late), assert +/-, assert a pending theory deduction, drain deductions, "
+         "histories of 25..60 operations: declare (most up front; LA, UF, AX: a fifth late, in 40% of the histories half of the atoms late and each late "
+         "declaration usually followed by assert / check / backtrack of that atom), assert +/-, assert a pending theory deduction, drain deductions, "
          "backtrack 1..4 (sometimes everything), check(false), check(true) (+ fresh instance). non-trivial = history with >= 1 backtrack and >= 1 "
          "verdict after it; distinct = (theory, pool, operations)",
 )
@@ -187,10 +188,13 @@ def gen_pool(r, th):
 
 def gen_ops(r, natoms, nops, late_ok=True, pos_bias=0.5):
     ops = []
-    # atoms declared after assertions have begun: only where the solver supports it (LASolver::declareAtom after
-    # initSolver, used for split atoms); the other solvers get every atom before the first assertion, as
-    # CoreSMTSolver::declareVarsToTheories does at the start of each solve
-    late = set(k for k in range(natoms) if late_ok and r.random() < 0.2)
+    # atoms declared after assertions have begun (LASolver::declareAtom after initSolver, Egraph::declareAtom at a
+    # backtrack depth > 0 with its REANALYZE undo entries): a fifth of the atoms in ordinary histories, half of them in
+    # "late-heavy" histories, where a late declaration is usually followed by asserting that atom, a check and a
+    # backtrack of it alone, so that what the declaration computed under the then-current literals has to be undone.
+    # The STP solvers get every atom before the first assertion (CoreSMTSolver::declareVarsToTheories; see design/C22.md).
+    heavy = late_ok and r.random() < 0.4
+    late = set(k for k in range(natoms) if late_ok and r.random() < (0.5 if heavy else 0.2))
     for k in range(natoms):
         if k not in late:
             ops.append("D%d" % k)
@@ -198,8 +202,15 @@ def gen_ops(r, natoms, nops, late_ok=True, pos_bias=0.5):
     r.shuffle(late)
     for _ in range(nops):
         x = r.random()
-        if late and x < 0.06:
-            ops.append("D%d" % late.pop())
+        if late and x < (0.14 if heavy else 0.06):
+            k = late.pop()
+            ops.append("D%d" % k)
+            if heavy and r.random() < 0.7:
+                ops.append("A%d%s" % (k, "+" if r.random() < max(pos_bias, 0.6) else "-"))
+                if r.random() < 0.6:
+                    ops.append("C1")
+                if r.random() < 0.6:
+                    ops.append("B1")
         elif x < 0.56:
             ops.append("A%d%s" % (r.randrange(natoms), "+" if r.random() < pos_bias else "-"))
             if r.random() < 0.12:
@@ -627,7 +638,7 @@ def run(ctx):
         r = random.Random(ctx.seed * 15485863 + i * 101 + 22)
         th = r.choice(THEORIES)
         hdr, atoms, z3decl = gen_pool(r, th)
-        ops = gen_ops(r, len(atoms), r.randint(25, 60), late_ok=th in ("LRA", "LIA"), pos_bias=0.7 if th in ("UF", "AX") else 0.5)
+        ops = gen_ops(r, len(atoms), r.randint(25, 60), late_ok=th in ("LRA", "LIA", "UF", "AX"), pos_bias=0.7 if th in ("UF", "AX") else 0.5)
         seqs.append((th, hdr, atoms, z3decl, ops))
     t0 = time.time()
     # harness: chunks of sequences, in parallel
